@@ -207,29 +207,48 @@ func (e c13Engine) RunSeed(tier string, seed uint64, idx int) *core.Result {
 	}
 	res := &core.Result{Seed: seed, Probes: map[string]int{"intact_total": 0, "intact_opened": 0}, Faults: map[string]int{}}
 	sc := genLib(rng, tier)
-	if rng.Chance(1, 8) {
-		// tune the target body so that its stored (level 0) stream fills whole
-		// 4096- or 512-byte blocks: what is appended then starts on a block edge
+	if rng.Chance(1, 6) {
+		// tune the target body so that its stored (level 0) stream - or the
+		// whole file, header included - fills whole blocks of one of the
+		// sizes the layers below work in: what is appended then starts on a
+		// block edge, and a reader that works in such pieces ends on one
 		t := &sc.Ops[len(sc.Ops)-1]
 		t.Level = 0
-		if t.Body.Kind == "empty" || t.Body.Kind == "corpus" {
-			t.Body = &bodySpec{Kind: "random", Len: rng.Range(5000, 20000), Seed: rng.U64()}
+		block := []int{4096, 4096, 512, 32768, 65536, 65536}[rng.Intn(6)]
+		whole := rng.Chance(1, 2)
+		if t.Body.Kind == "empty" || t.Body.Kind == "corpus" || t.Body.Len < block+200 {
+			t.Body = &bodySpec{Kind: "random", Len: rng.Range(block+200, 2*block+20000), Seed: rng.U64()}
 		}
-		if t.Body.Len > 70000 {
-			t.Body.Len = 70000
+		if t.Body.Len > 200000 {
+			t.Body.Len = 200000
 		}
-		probe := &libScenario{Hash: sc.Hash, Keys: sc.Keys, Ops: []libOp{*t}}
-		pr := newLibRun(probe, &core.Result{Probes: map[string]int{}, Faults: map[string]int{}})
-		pr.doPut(*t, func() *libScenario { return probe })
-		if img, ok := pr.w.GetFile(pr.paths[t.Key]); ok {
-			block := []int{4096, 4096, 512}[rng.Intn(3)]
-			rem := (len(img) - 3*pr.h.Size()) % block
-			if t.Body.Len > rem+1 {
-				b := *t.Body
-				b.Len -= rem
-				t.Body = &b
-				res.Probes["body_stream_tuned_to_block_size"]++
+		for try := 0; try < 3; try++ {
+			probe := &libScenario{Hash: sc.Hash, Keys: sc.Keys, Ops: []libOp{*t}}
+			pr := newLibRun(probe, &core.Result{Probes: map[string]int{}, Faults: map[string]int{}})
+			pr.doPut(*t, func() *libScenario { return probe })
+			img, ok := pr.w.GetFile(pr.paths[t.Key])
+			if !ok {
+				break
 			}
+			n := len(img)
+			if !whole {
+				n -= 3 * pr.h.Size()
+			}
+			rem := n % block
+			if rem == 0 {
+				if whole {
+					res.Probes["entry_file_tuned_to_block_size"]++
+				} else {
+					res.Probes["body_stream_tuned_to_block_size"]++
+				}
+				break
+			}
+			if t.Body.Len <= rem+1 {
+				break
+			}
+			b := *t.Body
+			b.Len -= rem
+			t.Body = &b
 		}
 	}
 	r := newLibRun(sc, res)
